@@ -163,6 +163,7 @@ def run_shard(args):
             w.mkcol(colpath, "calendar")
             fsp = w.fs_path(colpath)
             rows = c11.row_objects()
+            allrows = list(rows)
             rng.shuffle(rows)
             objs = [("o%d.ics" % i, label, c11.build_object(label, ct, lines, vtz, i + 1000 * seq)) for i, (label, ct, lines, vtz) in enumerate(rows[:18])]
             objs += [(n, l, b) for (n, l, b) in c11.gen_objects(rng, 10)]
@@ -196,13 +197,20 @@ def run_shard(args):
                             live.pop(name)
                             res.count("writes_between_queries")
                     else:
-                        src = rng.choice(objs)
-                        body = src[2]
-                        # same UID as the source object -> only valid for that name
-                        s, r = w.call("put", "PUT", w.url(colpath, src[0]), [("Content-Type", "text/calendar")], body if rng.random() < 0.3 else body.replace(b"SUMMARY:", b"SUMMARY:changed ", 1), record=False)
+                        # overwrite a member with the properties of a *different* table row (same
+                        # name and UID): every value an index may have cached for it changes
+                        rowobjs = [(i, o) for i, o in enumerate(objs) if o[0].startswith("o")]
+                        i, src = rng.choice(rowobjs)
+                        label, ct, lines, vtz = rng.choice(allrows)
+                        if rng.random() < 0.25:
+                            body = src[2]     # restore / no-op
+                        else:
+                            body = c11.build_object(label, ct, lines, vtz, i + 1000 * seq)
+                        s, r = w.call("put", "PUT", w.url(colpath, src[0]), [("Content-Type", "text/calendar")], body, record=False)
                         if W.World.success(s.eff):
                             live[src[0]] = body
                             res.count("writes_between_queries")
+                            res.count("overwrites_changing_indexed_values")
                     continue
                 fi = rng.randrange(len(pool))
                 flt, tzid, shape = pool[fi]
@@ -278,7 +286,8 @@ def check(tier, seed, t0):
     k = 1 if not th else 10
     past = max(1, c.get("queries_past_threshold", 0))
     guards = [("queries compared with the cold naive evaluation", c.get("comparisons", 0), 1500 * k), ("queries answered from the index (recording wrapper)", c.get("queries_answered_from_index", 0), 500 * k),
-              ("writes between queries", c.get("writes_between_queries", 0), 100 * k), ("index resets", c.get("index_resets", 0), 10)]
+              ("writes between queries", c.get("writes_between_queries", 0), 100 * k), ("overwrites that change indexed values", c.get("overwrites_changing_indexed_values", 0), 60 * k),
+              ("index resets", c.get("index_resets", 0), 10)]
     return common.finish(PROP, tier, seed, "exploration", merged, failures, RULE, t0, guards=guards,
                          assumptions=["the naive evaluation of the same code on a fresh store object is the reference (RFC conformance is C11's question)", "queries in aio shards cannot be attributed to a path (no wrapper in the server process); they use thresholds 0/1"])
 
